@@ -170,6 +170,8 @@ type recWriter struct {
 	delay     time.Duration
 	inside    int32
 	overlap   int32
+	closeErr  bool // Close fails
+	closes    int32
 	failEvery int32 // k > 0: every k-th Write fails (returns an error, records nothing); 1 = behaves like a closed writer
 	writes    int32
 }
@@ -193,7 +195,13 @@ func (w *recWriter) Write(p []byte) (int, error) {
 	atomic.AddInt32(&w.inside, -1)
 	return len(p), nil
 }
-func (w *recWriter) Close() error           { return nil }
+func (w *recWriter) Close() error {
+	atomic.AddInt32(&w.closes, 1)
+	if w.closeErr {
+		return errSinkFailed
+	}
+	return nil
+}
 func (w *recWriter) SetSource(string) error { return nil }
 func (w *recWriter) Sync() error            { return nil }
 func (w *recWriter) bytes() []byte {
@@ -201,6 +209,44 @@ func (w *recWriter) bytes() []byte {
 	defer w.mu.Unlock()
 	return append([]byte(nil), w.buf.Bytes()...)
 }
+
+// User-defined Loggers implementations (members of composites).
+// lazyRec: a pointer to an ALL-ZERO struct that records into its own fields lazily.
+type lazyRec struct {
+	mu    sync.Mutex
+	lines []byte
+}
+
+func (l *lazyRec) Close() error                 { return nil }
+func (l *lazyRec) Check() error                 { return nil }
+func (l *lazyRec) SetLogSource(string) error    { return nil }
+func (l *lazyRec) SetLoggerSource(string) error { return nil }
+func (l *lazyRec) Log(a ...interface{}) {
+	l.mu.Lock()
+	l.lines = append(l.lines, fmt.Sprintln(a...)...)
+	l.mu.Unlock()
+}
+func (l *lazyRec) LogError(a ...interface{}) { l.Log(a...) }
+func (l *lazyRec) bytes() []byte {
+	l.mu.Lock()
+	defer l.mu.Unlock()
+	return append([]byte(nil), l.lines...)
+}
+
+// statelessLogger: no fields at all; writes to a package-level sink
+type statelessLogger struct{}
+
+var statelessSink lazyRec
+
+func (statelessLogger) Close() error                 { return nil }
+func (statelessLogger) Check() error                 { return nil }
+func (statelessLogger) SetLogSource(string) error    { return nil }
+func (statelessLogger) SetLoggerSource(string) error { return nil }
+func (statelessLogger) Log(a ...interface{})         { statelessSink.Log(a...) }
+func (statelessLogger) LogError(a ...interface{})    { statelessSink.Log(a...) }
+
+// work to do once the composite that contains a member has been built (an empty composite is filled afterwards)
+var deferredFill []func()
 
 // dropRec is the droppedMessagesLogger: it sums what the diode reports
 type dropRec struct {
@@ -247,8 +293,11 @@ type sink struct {
 	// which messages this sink must hold (required) and may hold (allowed)
 	required  func(mid) bool
 	allowed   func(mid) bool
-	foreign   *regexp.Regexp                // lines that are not messages but legitimate
-	src       string                        // logger source expected in the prefix (std / async formats)
+	foreign   *regexp.Regexp // lines that are not messages but legitimate
+	src       string         // logger source expected in the prefix (std / async formats)
+	atClose   bool           // the content is taken the moment Close returns (no grace period)
+	snap      []byte         // that content
+	snapped   bool
 	lineCheck func(ln string, m mid) string // extra per-line demand (e.g. the line carries its own logger's source); "" = fine
 	noLevel   bool                          // the severity label is not checked (hclogr maps logr's V(0) to hclog's Error level)
 	obs       []mid                         // filled by parse
@@ -262,6 +311,9 @@ var (
 // parse splits the sink into lines and recognises the messages; returns descriptions of corrupt / unexpected lines
 func (s *sink) parse(seed int64) (corrupt []string, unexpected []string) {
 	raw := s.read()
+	if s.snapped {
+		raw = s.snap
+	}
 	s.obs = nil
 	if len(raw) == 0 {
 		return
@@ -437,18 +489,19 @@ func genPrograms(sc Scenario, rng *rand.Rand, nAppend int) [][]pop {
 // building the loggers
 
 type built struct {
-	L        logs.Loggers
-	multi    logs.IMultipleLoggers
-	sinks    []*sink
-	appendL  []logs.Loggers // members that producers append during the run
-	appendS  []*sink
-	closeFn  func()
-	drops    *dropRec
-	async    bool
-	noSink   bool
-	overlaps func() int
-	srcFor   func(p, k int) string // the log source a producer sets (default: srcA / srcB)
-	Ls       []logs.Loggers        // several instances of the same constructor alive at once: producer p uses Ls[p % len(Ls)]
+	L         logs.Loggers
+	multi     logs.IMultipleLoggers
+	sinks     []*sink
+	appendL   []logs.Loggers // members that producers append during the run
+	appendS   []*sink
+	closeFn   func()
+	drops     *dropRec
+	async     bool
+	noSink    bool
+	overlaps  func() int
+	postCheck func() []string       // further demands after Close (e.g. every writer was closed)
+	srcFor    func(p, k int) string // the log source a producer sets (default: srcA / srcB)
+	Ls        []logs.Loggers        // several instances of the same constructor alive at once: producer p uses Ls[p % len(Ls)]
 }
 
 func all(mid) bool       { return true }
@@ -622,6 +675,37 @@ func buildSimple(kind string, sc Scenario, idx int) (logs.Loggers, []*sink, erro
 			return nil, nil, err
 		}
 		return l, []*sink{byLevel(jsonSinkFromRec(fmt.Sprintf("slog#%d@%s", idx, sc.Level), w), sl.Enabled(context.Background(), slog.LevelInfo), sl.Enabled(context.Background(), slog.LevelError))}, nil
+	case "userlazy":
+		l := &lazyRec{}
+		return l, []*sink{{name: fmt.Sprintf("userlazy#%d", idx), format: "plain", read: l.bytes, required: all, allowed: all}}, nil
+	case "userstateless":
+		statelessSink.mu.Lock()
+		statelessSink.lines = nil
+		statelessSink.mu.Unlock()
+		return &statelessLogger{}, []*sink{{name: "userstateless", format: "plain", read: statelessSink.bytes, required: all, allowed: all}}, nil
+	case "emptycomposite":
+		// an EMPTY composite is added as a member and filled afterwards
+		inner := &logs.MultipleLogger{}
+		leaf, err := logs.NewPlainStringLogger()
+		if err != nil {
+			return nil, nil, err
+		}
+		deferredFill = append(deferredFill, func() { _ = inner.Append(leaf) })
+		return inner, []*sink{{name: fmt.Sprintf("emptycomposite#%d", idx), format: "plain", read: func() []byte { return []byte(leaf.GetLogContent()) }, required: all, allowed: all}}, nil
+	case "nested":
+		leaf, err := logs.NewPlainStringLogger()
+		if err != nil {
+			return nil, nil, err
+		}
+		ul := &lazyRec{}
+		inner, err := logs.NewCombinedLoggers(leaf, ul)
+		if err != nil {
+			return nil, nil, err
+		}
+		return inner, []*sink{
+			{name: fmt.Sprintf("nested-leaf#%d", idx), format: "plain", read: func() []byte { return []byte(leaf.GetLogContent()) }, required: all, allowed: all},
+			{name: fmt.Sprintf("nested-userlazy#%d", idx), format: "plain", read: ul.bytes, required: all, allowed: all},
+		}, nil
 	case "logrquiet":
 		// logr adapter over logrimp's quiet logr logger (errors only) over zap
 		w := &recWriter{}
@@ -689,6 +773,7 @@ func buildSimple(kind string, sc Scenario, idx int) (logs.Loggers, []*sink, erro
 
 func build(sc Scenario) (*built, error) {
 	b := &built{closeFn: func() {}}
+	deferredFill = nil
 	switch sc.Kind {
 	case "std", "pipe":
 		var l logs.Loggers
@@ -742,6 +827,42 @@ func build(sc Scenario) (*built, error) {
 		}
 		b.L, b.async = l, true
 		b.closeFn = func() { _ = l.Close() }
+	case "asyncclosefail":
+		// the Close of one (or both) of the slow writers FAILS while messages are still queued; the rings cannot
+		// overflow (ring >= traffic): after Close — whatever it returns — a side whose writer closed properly must
+		// have been drained completely, and Close must have been called on BOTH writers
+		ow, ew := &recWriter{delay: time.Duration(sc.SlowUs) * time.Microsecond}, &recWriter{delay: time.Duration(sc.SlowUs) * time.Microsecond}
+		ew.closeErr = sc.Members[0] == "err" || sc.Members[0] == "both"
+		ow.closeErr = sc.Members[0] == "out" || sc.Members[0] == "both"
+		l, err := logs.NewAsynchronousLoggers(ow, ew, sc.Ring, time.Duration(sc.PollMs)*time.Millisecond, "lsrc", "src0", &dropRec{})
+		if err != nil {
+			return nil, err
+		}
+		b.L, b.async = l, true
+		// (a side whose own writer failed to close: DiodeWriter.Close returns before closing the diode, its ring is
+		// emptied later by the reader that keeps running — nothing is demanded of that side here)
+		reqOut, reqErr := onlyOut, onlyErr
+		if ow.closeErr {
+			reqOut = none
+		}
+		if ew.closeErr {
+			reqErr = none
+		}
+		b.sinks = []*sink{
+			{name: "asyncclosefail-out", format: "async", read: ow.bytes, required: reqOut, allowed: onlyOut, atClose: !ow.closeErr},
+			{name: "asyncclosefail-err", format: "async", read: ew.bytes, required: reqErr, allowed: onlyErr, atClose: !ew.closeErr},
+		}
+		b.closeFn = func() { _ = l.Close() }
+		b.postCheck = func() []string {
+			var bad []string
+			if atomic.LoadInt32(&ow.closes) == 0 {
+				bad = append(bad, "Close was never called on the OUTPUT writer")
+			}
+			if atomic.LoadInt32(&ew.closes) == 0 {
+				bad = append(bad, "Close was never called on the ERROR writer")
+			}
+			return bad
+		}
 	case "jsonslow":
 		w := &recWriter{delay: time.Duration(sc.SlowUs) * time.Microsecond}
 		b.drops = &dropRec{}
@@ -881,8 +1002,12 @@ func build(sc Scenario) (*built, error) {
 			return nil, err
 		}
 		b.L, b.multi = m, m
+		for _, f := range deferredFill {
+			f()
+		}
+		deferredFill = nil
 		if sc.Mix == "append" {
-			kinds := []string{"plainstring", "string", "plainstring"}
+			kinds := []string{"plainstring", "userlazy", "string"}
 			for i, mk := range kinds {
 				l, ss, err := buildSimple(mk, sc, 100+i)
 				if err != nil {
@@ -912,6 +1037,7 @@ type runObs struct {
 	panicMsg                       string
 	hang                           bool
 	collisions                     int64
+	notClosed                      []string
 }
 
 func truncateStd(sc Scenario) {
@@ -995,6 +1121,14 @@ func runOnce(sc Scenario, res *WResult, emitCase bool) (ob runObs) {
 	}
 	if v := panics.Load(); v != nil {
 		ob.panicMsg = v.(string)
+	}
+	for _, sk := range b.sinks {
+		if sk.atClose {
+			sk.snap, sk.snapped = sk.read(), true
+		}
+	}
+	if b.postCheck != nil {
+		ob.notClosed = b.postCheck()
 	}
 
 	// what was sent
@@ -1159,7 +1293,7 @@ func emitCases(sc Scenario, b *built, progs [][]pop, sinks []*sink, ob runObs, r
 // memberSpec: (quiet, every k-th write fails, usable in a correspondence case)
 func memberSpec(kind string) (bool, int, bool) {
 	switch kind {
-	case "plainstring", "string", "ok", "slow", "jsonslowm":
+	case "plainstring", "string", "ok", "slow", "jsonslowm", "userlazy", "userstateless":
 		return false, 0, true
 	case "quiet", "quietplain":
 		return true, 0, true
@@ -1914,6 +2048,9 @@ func runScenario(sc Scenario, res *WResult) {
 	if len(ob.lost) > 0 {
 		res.fail("lost:"+kind, ob.lost[0], sc)
 	}
+	if len(ob.notClosed) > 0 {
+		res.fail("writer-not-closed:"+kind, ob.notClosed[0], sc)
+	}
 	isAsync := sc.Kind == "async" || sc.Kind == "asyncone" || sc.Kind == "jsonslow"
 	if isAsync {
 		if ob.sent-ob.delivered > 0 {
@@ -2111,6 +2248,31 @@ func scenarios(r *h.Run) map[string][]Scenario {
 		for _, lvl := range []string{"debug", "info", "warn", "error"} {
 			add(Scenario{Kind: k, Producers: 2 + rng.Intn(5), Msgs: 20 + rng.Intn(20), Mix: "all", Level: lvl})
 		}
+	}
+	// user-defined members: a pointer to an all-zero struct, a stateless struct, an empty composite filled later, a
+	// nested composite — in every position of combined / multiple loggers, and appended during the run
+	userSets := [][]string{{"userlazy"}, {"userstateless"}, {"emptycomposite"}, {"plainstring", "userlazy"}, {"userlazy", "plainstring"},
+		{"userlazy", "plainstring", "userstateless"}, {"emptycomposite", "plainstring"}, {"plainstring", "emptycomposite", "userlazy"},
+		{"plainstring", "nested", "userstateless", "emptycomposite"}, {"nested", "userlazy", "string", "json"}}
+	for _, k := range []string{"multi", "combined"} {
+		for i, ms := range userSets {
+			mix := []string{"all", "append"}[i%2]
+			add(Scenario{Kind: k, Producers: 2 + rng.Intn(7), Msgs: 15 + rng.Intn(25), Mix: mix, Members: ms})
+		}
+		for i := 0; i < r.N(10, 30); i++ {
+			ms := []string{"plainstring"}
+			for len(ms) < 2+rng.Intn(3) {
+				ms = append(ms, []string{"userlazy", "plainstring", "quietplain"}[rng.Intn(3)])
+			}
+			add(Scenario{Kind: k, Producers: 2 + rng.Intn(4), Msgs: 1 + rng.Intn(8), Mix: "append", Members: ms, Case: true})
+		}
+	}
+	// asynchronous loggers whose writers fail to Close, with messages still queued at Close
+	for _, side := range []string{"err", "out", "both", "none"} {
+		for _, poll := range []int{0, 1} {
+			add(Scenario{Kind: "asyncclosefail", Producers: 4, Msgs: 25, Mix: "both", Ring: 1024, PollMs: poll, SlowUs: 150, Members: []string{side}})
+		}
+		add(Scenario{Kind: "asyncclosefail", Producers: 2, Msgs: 50, Mix: []string{"log", "err", "both"}[rng.Intn(3)], Ring: 256, PollMs: 0, SlowUs: 100, Members: []string{side}})
 	}
 	// two adapters over ONE shared underlying logr.Logger
 	for _, be := range []string{"zap", "logrus", "hclog", "slog", "quietzap", "quietlogrus", "quietslog"} {
